@@ -32,6 +32,9 @@ type rfTrace struct {
 	why     string
 	outs    []rfOutcome
 	visited map[*ssa.Function]bool // the functions folded through
+	// globalCells: the cells reachable from package-level variables when the fold starts (what lives there is
+	// shared by every call of ReadFile)
+	globalCells map[*cpCell]bool
 }
 
 var rfTraceCache = map[*Program]*rfTrace{}
@@ -74,7 +77,7 @@ func readFileTrace(P *Program, s rfAnchorSet) *rfTrace {
 		}
 		return o.Blocks == nil
 	}
-	e := &cpEngine{P: P, MaxOut: 30000, MaxSteps: 60000, MaxForks: 64, MaxDepth: 8, opaque: opaque, visited: map[*ssa.Function]bool{}, LoopCut: 2, trackAtoms: true, havocSlices: true, foldAll: true}
+	e := &cpEngine{P: P, MaxOut: 30000, MaxSteps: 60000, MaxForks: 64, MaxDepth: 8, opaque: opaque, visited: map[*ssa.Function]bool{}, LoopCut: 2, trackAtoms: true, havocSlices: true, foldAll: true, forkLookups: true}
 	e.keepField = func(t types.Type, i int) bool {
 		if typeKey(t) != "avro.ReadBuf" {
 			return false
@@ -83,6 +86,10 @@ func readFileTrace(P *Program, s rfAnchorSet) *rfTrace {
 		return ok && i < st.NumFields() && (st.Field(i).Name() == s.fBank || st.Field(i).Name() == s.fBuf)
 	}
 	e.globals = cpInitGlobals(P)
+	t.globalCells = map[*cpCell]bool{}
+	for _, gc := range e.globals {
+		cpReachableCells(gc, t.globalCells, 0)
+	}
 	e.pending = [][]bool{nil}
 	for len(e.pending) > 0 {
 		d := e.pending[len(e.pending)-1]
@@ -261,4 +268,47 @@ func derefType(t types.Type) types.Type {
 		return p.Elem()
 	}
 	return t
+}
+
+// cpReachableCells adds c and every cell reachable from what it holds.
+func cpReachableCells(c *cpCell, out map[*cpCell]bool, d int) {
+	if c == nil || out[c] || d > 8 {
+		return
+	}
+	out[c] = true
+	var walk func(v cpVal, d int)
+	walk = func(v cpVal, d int) {
+		if d > 8 {
+			return
+		}
+		switch x := v.(type) {
+		case cpPtr:
+			cpReachableCells(x.C, out, d+1)
+		case cpIface:
+			walk(x.V, d+1)
+		case cpStruct:
+			for _, fc := range x.F {
+				cpReachableCells(fc, out, d+1)
+			}
+		case cpSlice:
+			for _, ec := range x.Elems {
+				cpReachableCells(ec, out, d+1)
+			}
+		case cpArr:
+			for _, ec := range x.Elems {
+				cpReachableCells(ec, out, d+1)
+			}
+		case cpMap:
+			if x.O != nil {
+				for _, ent := range x.O.M {
+					walk(ent.V, d+1)
+				}
+			}
+		case cpClosure:
+			for _, b := range x.Bind {
+				walk(b, d+1)
+			}
+		}
+	}
+	walk(c.V, d)
 }
